@@ -13,9 +13,8 @@ pub struct V5Parser;
 impl V5Parser {
 //@ fn src/static_versions/v5.rs - /impl V5Parser/ parse
 //@   contract: stubs/v5parser_parse.rs
-//@   closure 0: p | -> (o: ParsedNetflow) ensures o.remaining@ == p.0@, o.result == NetflowPacket::V5(p.1)
-//@   closure 1: - | -> (o: NetflowParseError) ensures o matches NetflowParseError::Partial(pp) && pp.version == 5 && pp.remaining@ =~= packet@
-//@   before "V5::parse(packet)": broadcast use lemma_cloned_u8;
+//@   prerules: R30
+//@   bodystart: broadcast use lemma_cloned_u8;
 //@ end
 }
 } // verus!
